@@ -516,8 +516,10 @@ func (s *Server) Unlock(passphrase []byte) error {
 
 // Signers returns the available singers from the in-memory certs and underlying agent.
 func (s *Server) Signers() ([]ssh.Signer, error) {
-	s.mu.RLock()
-	defer s.mu.RUnlock()
+	// filter prunes the certificate tables and the no-upstream cache is filled
+	// below: this is a writer.
+	s.mu.Lock()
+	defer s.mu.Unlock()
 
 	if s.locked {
 		return nil, errors.New("agent is locked")
